@@ -555,6 +555,8 @@ class Interpreter(Interp):
         if isinstance(fn, Rec) and "__call__" in fn._fields:
             return self.call(fn._fields["__call__"], args, kwargs)
         if callable(fn):
+            if any(not isinstance(k, str) for k in kwargs):
+                raise OutOfReach(f"host callable {getattr(fn, '__name__', fn)!r} called with non-string keyword keys")
             return fn(self, *args, **kwargs)
         raise exc("TypeError", f"{fn!r} is not callable")
 
@@ -767,7 +769,7 @@ class Interpreter(Interp):
             if attr == "__name__":
                 return obj.node.name if not isinstance(obj.node, ast.Lambda) else "<lambda>"
             raise OutOfReach(f"function attribute {attr}")
-        if isinstance(obj, ast.AST):
+        if isinstance(obj, ast.AST) or isinstance(obj, type):
             try:
                 return getattr(obj, attr)
             except AttributeError:
@@ -919,6 +921,9 @@ class Interpreter(Interp):
                 del obj[idx]
             except IndexError:
                 raise exc("IndexError", "list index out of range")
+            return
+        if isinstance(obj, Rec) and "__delitem__" in obj._fields:
+            self.call(obj._fields["__delitem__"], [idx], {})
             return
         raise OutOfReach(f"del item on {type(obj).__name__}")
 
@@ -1413,5 +1418,6 @@ DEFAULT_BUILTINS.update({
     "repr": lambda i, v: repr(v) if isinstance(v, (int, str, float, bool, type(None))) else SV(i.str_of(v)),
     "True": True, "False": False, "None": None,
     "super": lambda i: i.do_super(),
+    "ord": lambda i, c: ord(c), "chr": lambda i, n: chr(n), "abs": lambda i, x: abs(x) if not isinstance(x, SV) else SV(z3.If(x.t >= 0, x.t, -x.t)),
     "vars": lambda i, *a: {},
 })
